@@ -153,3 +153,7 @@ claim("C31", "E3-chain", "exploration", "runtime monitor over claim/proof histor
 claim("C32", "E3-chain", "exploration", "per-transaction pre/post oracle on the claims store and the supply over generated claim/proof lifecycles (16 claim classes x 13 proof classes) with an independent session-membership reference",
       "accepted claims must be after session end, not after maturity, from a reference-session member, for a staked application on a supported chain, within [minimum, allowance]; supply may grow only in an accepted proof with a stored matching claim, the reference index and a leaf of the claimed set, the claim is removed, no (servicer, session) is paid twice, expired claims are removed without minting; one known finding (double payment at the proof height); held-on-observed otherwise",
       CLNOTE, "DESIGN.md §4 C32")
+ENGINES[-1 if ENGINES[-1]["name"]=="E6-ref" else [i for i,e in enumerate(ENGINES) if e["name"]=="E6-ref"][0]]["serves_properties"] += ["C26"]
+claim("C26", "E6-ref", "exploration", "per-account conservation monitor on the real x/nodes keeper (in-memory store, real auth keeper): every balance and the supply read before/after RewardForRelaysPerChain, BeginBlocker->blockReward and SplitNodeRewards, compared with big.Int re-statements of the split rules",
+      "9 campaigns (feature sets: all / no delegators / no stake weighting / legacy / heights 30024..74621; three block-reward sets; bare split) over relay counts to 1e12, stakes around bin edges, per-chain multipliers, DAO/proposer allocations incl. 0/0, 100/0, 0/100, delegator maps of 0..100 entries with share sums to exactly 100 and addresses colliding with output/operator/fee collector: minted == computed reward == sum of credits, fee part = floor, operator compensation, per-delegator floor, output remainder, nobody else credited; block reward: parts add up to the fees; one defect found and fixed (division by zero at 0/0); held-on-observed",
+      E6NOTE + "; the chain-level path (claims -> proofs -> mint) is monitored by C32 at heights where the history-replay branch of the reward code is active", "DESIGN.md §4 C26")
